@@ -1194,6 +1194,105 @@ def oracle_services(case, rows, out, designed_names):
     return fails
 
 
+# ------------------------------------------------------------------ header recognition stream
+SIDE_FIELDS = {'Distance (km)': '_distance', 'Fiber type': '_fiber', 'lineic att': '_lineic', 'Con_in': '_con_in',
+               'Con_out': '_con_out', 'PMD': '_pmd', 'Cable id': '_cable'}
+AMP_FIELDS = {'amp type': '_amp_type', 'amp gain': '_amp_gain', 'delta p': '_amp_dp', 'tilt': '_tilt_vs_wavelength',
+              'att_out': '_att_out', 'att_in': '_att_in'}
+HDR_SPECS = {
+    'Nodes': (0, {'City': 'city', 'State': 'state', 'Country': 'country', 'Region': 'region', 'Latitude': 'latitude',
+                  'Longitude': 'longitude', 'Type': 'node_type', 'Booster_restriction': 'booster_restriction',
+                  'Preamp_restriction': 'preamp_restriction'}, 4, 10),
+    'Links': (1, {'Node A': 'from_city', 'Node Z': 'to_city', 'east': {k: 'east' + v for k, v in SIDE_FIELDS.items()},
+                  'west': {k: 'west' + v for k, v in SIDE_FIELDS.items()}}, 3, 16),
+    'Eqpt': (2, {'Node A': 'from_city', 'Node Z': 'to_city', 'east': {k: 'east' + v for k, v in AMP_FIELDS.items()},
+                 'west': {k: 'west' + v for k, v in AMP_FIELDS.items()}}, 3, 14),
+    'Roadms': (3, dict(zip(ROADM_HDR, ['from_node', 'to_node', 'target_pch_out_db', 'type_variety', 'from_degrees',
+                                      'impairment_ids'])), 3, 6),
+    'Service': (4, dict(zip(SVC_HDR, ['request_id', 'source', 'destination', 'trx_type', 'mode', 'spacing', 'power',
+                                      'nb_channel', 'disjoint_from', 'nodes_list', 'is_loose', 'path_bandwidth'])), 4, 12),
+}
+
+
+def all_labels(d):
+    out = []
+    for k, v in d.items():
+        out.append(k)
+        if isinstance(v, dict):
+            out += list(v)
+    return out
+
+
+def gen_header_grid(rng, base):
+    """a sheet of a valid workbook, disturbed: optional columns removed, labels padded / duplicated / embedded in
+    other cells (a site called 'east', a state called 'Type A'), numbers in header lines, header lines moved"""
+    name = rng.choice([k for k in sheet_grids(base)] * 1)
+    rows = [list(r) for r in sheet_grids(base)[name]][:14]
+    kid, d, line, ncol = HDR_SPECS[name]
+    width = max(len(r) for r in rows)
+    rows = [r + [None] * (width - len(r)) for r in rows]
+    labels = all_labels(d)
+    for _ in range(rng.choice([0, 0, 1, 1, 2, 3])):
+        k = rng.random()
+        if k < 0.3 and width > 2:
+            # remove a column (an optional header disappears with its data)
+            c = rng.randrange(1 if name == 'Nodes' else 2, width)
+            rows = [r[:c] + r[c + 1:] for r in rows]
+            width -= 1
+        elif k < 0.55:
+            # a cell containing a label somewhere in the first lines
+            lab = rng.choice(labels)
+            r, c = rng.randrange(0, len(rows)), rng.randrange(0, width)
+            rows[r][c] = rng.choice([lab, lab + ' x', 'North' + lab, f' {lab} ', lab.lower()])
+        elif k < 0.7:
+            r, c = rng.randrange(2, min(len(rows), 7)), rng.randrange(0, width)
+            rows[r][c] = rng.choice([0, 1, 2.5])
+        elif k < 0.85:
+            rows.insert(rng.randrange(0, 5), [None] * width)
+            rows = rows[:14]
+        else:
+            r = rng.randrange(3, min(len(rows), 6))
+            rows[r] = [None if rng.random() < 0.5 else v for v in rows[r]]
+    return {'sheet': name, 'grid': rows, 'fmt': rng.choice(['xls', 'xlsx'])}
+
+
+def drive_headers(hc, tmpdir, k):
+    """gnpy's parse_headers on the grid: ordered [[column, field], ...] or the error"""
+    from gnpy.tools.convert import parse_headers
+    kid, d, line, ncol = HDR_SPECS[hc['sheet']]
+    if hc['fmt'] == 'xlsx':
+        import openpyxl
+        from gnpy.tools.xls_utils import generic_open_workbook, get_sheet
+        wb = openpyxl.Workbook()
+        ws = wb.active
+        ws.title = hc['sheet']
+        for r in hc['grid']:
+            ws.append(list(r))
+        p = Path(tmpdir) / f'h{k}.xlsx'
+        wb.save(p)
+        wbk, is_xlsx = generic_open_workbook(p)
+        sh = get_sheet(wbk, hc['sheet'], is_xlsx)
+    else:
+        sh, is_xlsx = FakeSheet(hc['sheet'], hc['grid']), False
+    try:
+        hd = parse_headers(sh, is_xlsx, d, {}, line, (0, ncol))
+        return [[c, f] for c, f in hd.items()]
+    except Exception as e:
+        if type(e).__name__ == 'NetworkTopologyError':
+            return 'E:NetworkTopologyError:' + ('missing_header' if 'missing header' in str(e) else 'no_header')
+        return f'E:{type(e).__name__}'
+
+
+def grid_term(hc):
+    def c(v):
+        if v is None or v == '':
+            return 'xE'
+        if isinstance(v, str):
+            return f'(xT {strlit(v)})'
+        return f'(xN {qlit(v)})'
+    return f"hdr_case {HDR_SPECS[hc['sheet']][0]} {listlit([listlit([c(v) for v in r]) for r in hc['grid']])}"
+
+
 # ------------------------------------------------------------------ the run
 def coq_eval(*a, **k):
     """common.coq_eval, retried when a coqc shard dies without any message (killed on a loaded machine);
@@ -1250,9 +1349,12 @@ def run(ctx):
         c['_corpus'] = os.path.basename(f)
         corpus.append(c)
     replay_rows = []
+    replay_hdr = None
     if ctx.replay:
         rc = json.load(open(ctx.replay))['case']
-        if 'service_row' in rc:
+        if 'grid' in rc:
+            corpus, replay_hdr = [], rc
+        elif 'service_row' in rc:
             corpus, replay_rows = [], [rc['service_row']]
         else:
             corpus = [rc]
@@ -1371,6 +1473,19 @@ def run(ctx):
                 continue
             terms.append(f'conv_case {rows_term(c)}')
             meta.append((c, data, impl, exc))
+        # header recognition on disturbed sheets
+        hdr_cases, hdr_impl = [], []
+        if not ctx.replay:
+            src = [c for c in valid if not c.get('fixture')]
+            for k in range(ctx.scale(160, 1500) if src else 0):
+                hc = gen_header_grid(rng, rng.choice(src))
+                hdr_cases.append(hc)
+        elif replay_hdr is not None:
+            hdr_cases = [replay_hdr]
+        t0 = time.time()
+        for k, hc in enumerate(hdr_cases):
+            hdr_impl.append(drive_headers(hc, tmp, k))
+        TM.add('headers', t0)
         # Request_element alone, on directly built Request objects (row by row)
         req_rows = list(replay_rows)
         if not ctx.replay:
@@ -1436,6 +1551,23 @@ def run(ctx):
         else:
             ctx.count('corr_service_sheets_agree')
     TM.add('coq_services', t0)
+    # header recognition
+    t0 = time.time()
+    lines = coq_eval('C20', 'Prelude Model.Sheet Run.C20', [grid_term(hc) for hc in hdr_cases], per_file=shard(hdr_cases, 10),
+                     tag='hdr', prelude='From Coq Require Import QArith.')
+    for hc, impl, line in zip(hdr_cases, hdr_impl, lines):
+        model = line if line.startswith('E:') else json.loads(line)
+        ctx.count('header_grids')
+        if model != impl:
+            ctx.corr_break('corr:Sheet.parse_headers', f"sheet {hc['sheet']}", hc, impl=impl, model=model)
+        else:
+            ctx.count('header_' + ('rejected' if isinstance(impl, str) else 'mapped'))
+            if not isinstance(impl, str):
+                kid, d, _, _ = HDR_SPECS[hc['sheet']]
+                nf = len(all_labels(d)) - sum(1 for v in d.values() if isinstance(v, dict))
+                if len({f for _, f in impl}) < nf:
+                    ctx.count('header_some_fields_unmapped')
+    TM.add('coq_headers', t0)
     # Request_element rows
     t0 = time.time()
     rterms = [f'req_case {equip_term()} {"true" if k % 2 == 0 else "false"} {listlit([req_row_term(s)])}'
